@@ -21,7 +21,11 @@ for pid in allp:
                           "text": P.get("level_text", "") or P.get("explanation", ""),
                           "design_ref": "DESIGN.md section 5 (%s), section 9 (as built)" % pid},
         "level_note": P.get("level_note", "") or "; ".join(P.get("assumptions", [])),
-        "technique": P.get("technique", "contract-based deductive verification: sidecar contracts on the real functions, VCs generated by symbolic execution of the /repo ASTs (pyvc), discharged by z3 / cvc5"),
+        "technique": P.get("technique", "contract-based deductive verification: sidecar contracts (pre/post/exceptional post, loop invariants, ghost state) on the real functions, "
+                                        "VCs generated on every run by symbolic execution of the /repo ASTs (pyvc), modular at calls, discharged by z3 / cvc5; an obligation the "
+                                        "solvers refute only modulo quantified axioms, leave open, or a function that leaves the verified subset is decided by replaying on the real "
+                                        "code with the property's native harness (%s; bounded, never counted as proved), which also runs on every green run"
+                                        % (P.get("harness") if isinstance(P.get("harness"), str) else ", ".join(P.get("harness") or []))),
     })
 na = []
 for pid in allp:
@@ -34,9 +38,9 @@ m = {"version": 1,
                "baseline_off_cmd": "cd /repo && /venv/bin/python -m pytest -ra -q -p no:cacheprovider --timeout=900 --continue-on-collection-errors",
                "source_commits": [], "add_only": True},
      "engines": [{"name": "pyvc", "path": "/verif/pyvc", "serves_properties": [c["property_id"] for c in checks],
-                  "kind_free_text": "VC generator for Python written for this task: parses the real functions from /repo on every run, executes them symbolically against sidecar contracts (pre/post/exceptional post/loop invariants/ghost state), modular at calls; obligations discharged by z3 5.1 (API) with cvc5 1.0.3 (--strings-exp) taking z3's unknowns"}],
+                  "kind_free_text": "VC generator for Python written for this task: parses the real functions from /repo on every run, executes them symbolically against sidecar contracts (pre/post/exceptional post/loop invariants/ghost state), modular at calls; obligations discharged by z3 5.1 (CLI z3-new; quantifier-free part first, then the full query) with cvc5 1.0.3 (--strings-exp) taking z3's unknowns, one generous retry for anything still open"}],
      "checks": checks,
-     "notes": "fix: commits in /repo repair 13 defect groups found while designing the contracts (see known_findings.json, DESIGN.md 3.3); reverse patches under mutants/prefix are used as regression self-tests",
+     "notes": "15 fix: commits in /repo repair the defects found by the contracts (known_findings.json, DESIGN.md 9.5); 6 further departures are listed as known findings; the reverse of every fix (mutants/prefix), 40 seeded property-breaking changes (seeded/) and hand-written mutations (mutants/Cxx) are the self-test of the thorough tier (DESIGN.md 9.4)",
      "not_applicable": na}
 json.dump(m, open(os.path.join(V, "MANIFEST.json"), "w"), indent=1)
 print("claimed:", [c["property_id"] for c in checks])
